@@ -1,7 +1,7 @@
 # Executed by gen_manifest.py: one claim() per property whose rule module exists.
 claim(
     'C02',
-    'CFG dominance, guards, reaching definitions, definite assignment, affine/comparison normal forms, forwarding table',
+    'CFG dominance, guard facts with entailment (unit propagation through compound tests), reaching definitions, definite assignment, affine/comparison normal forms, path-sensitive exit table, helper methods read in place',
     'Decides, for all paths of BaseModel.solve_t / SolverMixin.solve_period in the current source: the min/max ValueError '
     'and the out-of-span offset IndexErrors precede every effect; offset guards and copy in integer canonical form; pass '
     'counter ranges over 1..max_iter and is the iteration= argument; the min_iter gate guards the convergence test; the '
@@ -44,7 +44,7 @@ claim(
 )
 claim(
     'C06',
-    'reaching definitions of status stores, policy table from guards, handler discipline, sibling agreement of filter selection',
+    'reaching definitions of status stores, path-sensitive policy table on the flag product graph (last-pass outcome included), non-finite facts by entailment, handler discipline, sibling agreement of filter selection',
     'Decides: status alphabet (folded enum) and that every value stored into a status series package-wide is an enum reference; the '
     'per-errors= row of the non-finite branch (stores, exception class, loop exit, last-pass test, ValueError default); ordering '
     'previous-nonfinite -> current-nonfinite -> convergence by guards; each user-code call wrapped in try/except Exception raising '
@@ -64,7 +64,7 @@ claim(
 )
 claim(
     'C13',
-    'who-may-exec provenance, format-string taint, exception-escape summaries with handler modelling, __init__-chain event layout, end-of-input guard coverage',
+    'who-may-exec provenance (through compile), format-string taint and field-count guard, exception-escape summaries with handler modelling and decided beliefs, result-dictionary store discipline (merge / insert / overwrite), __init__-chain event layout, end-of-input guard coverage',
     'Decides: exec/eval occur in fsic/parser.py only in build_model on the text returned by build_model_definition; user text reaches '
     'str.format only brace-escaped; the set of exception classes that can escape parse_model over its call graph (explicit raises, '
     'asserts, raiser table) is within ParserError/SymbolError/IndentationError, each other site discharged by a named static fact; '
@@ -95,7 +95,7 @@ claim(
 )
 claim(
     'C20',
-    'same-object tokeniser identity, split agreement, edge direction from loop provenance',
+    'same-object tokeniser identity, split agreement, edge direction from loop provenance, fresh-result discipline for memoised builders',
     'Thin. Decides: symbols_to_graph uses the term_re imported from the parser (no private regex), splits at the first `=`, adds the '
     'left-hand terms as nodes carrying the equation and an edge from every right-hand term to every left-hand term in a DiGraph; '
     'with C01.R3 (same template, same term list for equation and code) the right-hand terms of the normalised equation are the series '
@@ -104,7 +104,7 @@ claim(
 )
 claim(
     'C05',
-    'loop-shape and forwarding tables, effect confinement in the period loop, validation dominance, NumPy-scalar provenance lattice',
+    'loop-shape and forwarding tables, effect confinement in the period loop, validation dominance on read-through facts, unpack-of-empty guard, NumPy-scalar provenance lattice',
     'Decides: solve() of models and linkers iterates iter_periods(start, end, **kwargs) and calls solve_t exactly once per period with the '
     'position and all options forwarded unchanged, stores flag/position/label per index, has no try/break/other effect in the loop; '
     'iter_periods rejects an empty span first, pairs positions and labels over the same bounds, default range span[lags]..span[-1-leads]; '
@@ -141,7 +141,7 @@ claim(
 )
 claim(
     'C12',
-    'fresh-object provenance, effect detection on self, dtype dispatch table from guards, writer/reader agreement of defaults, position-map direction',
+    'fresh-object provenance, effect detection on self and on class-level tables, dtype dispatch table from guards, layered defaults with precedence, writer/reader agreement of defaults, direction of the position pairs at construction and consumption',
     'Decides: the result is self.copy() and nothing writes the original; bool/int/str series default to False/0/\'\' (else coerced), others '
     'NaN via np.full(len(new span)); model defaults for status/iterations equal ModelInterface.__init__\'s initial values and keep caller '
     'fills; per-variable fill precedence; strict resolution and rejection before the copy; the new->old position map is built and '
@@ -150,7 +150,7 @@ claim(
 )
 claim(
     'C16',
-    'fresh-vs-parameter provenance of in-place stores, delegation tables, ordered namespace population by dominance, label provenance',
+    'fresh-vs-parameter provenance of in-place stores, delegation tables, slice-bound sign under guard facts, ordered namespace population by dominance, label provenance, module-state write detection',
     'Decides: helpers never store into their input; lag/lead/dlog delegate with the stated arguments; shift refills the right end per '
     'sign; diff returns x - lag(x, d) (d == 0 shortcut: K6); eval populates helper table -> variables -> caller locals, deep-copies the '
     'default helper table, never writes the container, maps NameError to AttributeError from e naming the variable; the inclusive +1 in '
@@ -177,7 +177,7 @@ claim(
 )
 claim(
     'C19',
-    'Optional-field exhaustiveness table, per-variable frame construction, flag forwarding tables',
+    'gated per-field restore values (missing -> None by the field\'s own value), per-variable frame construction read at default options, flag forwarding tables, method-dispatch of exports',
     'Thin (pandas coercions dominate). Decides: every Optional field of Symbol is restored to None on import; model_to_dataframe builds '
     'one column per variable from model[k] over model.names (underscore filter exactly when include_internal is false), indexed by span, '
     'status/iterations under their flags; linker export one frame per submodel plus the linker with flags forwarded unchanged; '
